@@ -7,6 +7,7 @@ import (
 	"fmt"
 	"go/types"
 	"math/big"
+	"regexp"
 	"sort"
 	"strings"
 
@@ -33,6 +34,7 @@ type Obligation struct {
 	ModelVar map[string]string // names worth reading from the model -> description
 	vc       *VC
 	goalFirst bool
+	PCParts   []string // disjuncts of PC (paths), tried one by one when the whole is not decided
 	Extra     []string // declarations of the Skolem constants of the goal
 }
 
@@ -55,6 +57,7 @@ type VC struct {
 	globals    map[*ssa.Global]string
 	specDecl   map[string]bool
 	defined    map[string]string // sort|term -> name (hash-consing of definitions)
+	defTerm    map[string]string // name -> defining term (macros)
 	assumed    map[string]bool   // assumptions already emitted
 	qfacts     []qfact           // quantified assumptions, for explicit instantiation at Skolem constants
 	boolDef    map[string]string // definitions of named Bool terms (reach conditions)
@@ -68,7 +71,7 @@ type VC struct {
 func newVC(e *Engine, fnName string) *VC {
 	vc := &VC{e: e, fnName: fnName, strIDs: map[string]int{}, heapSort: map[string]string{}, declared: map[string]bool{},
 		typeIDs: map[string]int{}, modelVar: map[string]string{}, counters: map[string]int{}, usedExt: map[string]bool{},
-		globals: map[*ssa.Global]string{}, specDecl: map[string]bool{}, written: map[string]bool{}, boolDef: map[string]string{}, defined: map[string]string{}, assumed: map[string]bool{}}
+		globals: map[*ssa.Global]string{}, specDecl: map[string]bool{}, written: map[string]bool{}, boolDef: map[string]string{}, defined: map[string]string{}, assumed: map[string]bool{}, defTerm: map[string]string{}}
 	vc.decls = append(vc.decls,
 		"(declare-sort Float 0)",
 		"(declare-fun float_zero () Float)",
@@ -143,6 +146,7 @@ func (vc *VC) define(prefix, sort, term string) string {
 	if sort == "Bool" {
 		vc.boolDef[n] = term
 	}
+	vc.defTerm[n] = term
 	if iv, ok := vc.e.ar.getIv(term); ok {
 		vc.e.ar.setIv(n, iv.lo, iv.hi)
 	}
@@ -252,35 +256,26 @@ func (vc *VC) oblige(kind, pc, goal, note string) *Obligation {
 			name = fmt.Sprintf("%s~%d", kind, n)
 		}
 	}
-	// A reach condition that is a disjunction of paths (a merged state) is split:
-	// one query per disjunct. The parts form one obligation (suffix /e<k>).
+	// A reach condition that is a disjunction of paths (a merged state) can be
+	// split: when the query on the whole condition is not decided, one query per
+	// disjunct is tried (all must be discharged).
 	parts := vc.splitPC(pc, 8)
-	if goal == "false" && len(parts) > 1 {
-		parts = []string{pc} // covers and unreachability are about the whole condition
+	if goal == "false" || len(parts) <= 1 {
+		parts = nil
 	}
-	var first *Obligation
-	for i, p := range parts {
-		nm := name
-		if len(parts) > 1 {
-			nm = fmt.Sprintf("%s/e%d", name, i+1)
+	sg, extra := vc.skolemize(goal)
+	if len(extra) > 0 {
+		var sks, sorts []string
+		for _, d := range extra {
+			f := strings.Fields(d) // (declare-fun NAME () SORT...)
+			sks = append(sks, f[1])
+			sorts = append(sorts, strings.TrimSuffix(strings.Join(f[3:], " "), ")"))
 		}
-		sg, extra := vc.skolemize(goal)
-		if len(extra) > 0 {
-			var sks, sorts []string
-			for _, d := range extra {
-				f := strings.Fields(d) // (declare-fun NAME () SORT...)
-				sks = append(sks, f[1])
-				sorts = append(sorts, strings.TrimSuffix(strings.Join(f[3:], " "), ")"))
-			}
-			extra = append(extra, vc.instancesFor(sks, sorts, len(vc.decls))...)
-		}
-		o := &Obligation{Name: vc.fnName + "#" + nm, Func: vc.fnName, Kind: nm, NDecl: len(vc.decls), PC: p, Goal: sg, Extra: extra, Mode: vc.e.ar.mode, Note: note, vc: vc}
-		vc.obligs = append(vc.obligs, o)
-		if first == nil {
-			first = o
-		}
+		extra = append(extra, vc.instancesFor(sks, sorts, len(vc.decls))...)
 	}
-	return first
+	o := &Obligation{Name: vc.fnName + "#" + name, Func: vc.fnName, Kind: name, NDecl: len(vc.decls), PC: pc, PCParts: parts, Goal: sg, Extra: extra, Mode: vc.e.ar.mode, Note: note, vc: vc}
+	vc.obligs = append(vc.obligs, o)
+	return o
 }
 
 // splitPC expands a reach condition into disjuncts (through named definitions,
@@ -874,4 +869,25 @@ func replaceToken(s, tok, by string) string {
 		i++
 	}
 	return b.String()
+}
+
+var nameTokRe = regexp.MustCompile(`[A-Za-z_][A-Za-z0-9_.$]*![0-9]+`)
+
+// patternSafe: a pattern may not contain logical connectives; macros are
+// expanded by the solver, so names defined by such terms are excluded too.
+func (vc *VC) patternSafe(t string, depth int) bool {
+	for _, bad := range []string{"(ite ", "(not ", "(and ", "(or ", "(=> ", "(= ", "(<= ", "(< ", "(>= ", "(> "} {
+		if strings.Contains(t, bad) {
+			return false
+		}
+	}
+	if depth > 6 {
+		return false
+	}
+	for _, n := range nameTokRe.FindAllString(t, -1) {
+		if d, ok := vc.defTerm[n]; ok && !vc.patternSafe(d, depth+1) {
+			return false
+		}
+	}
+	return true
 }
